@@ -100,9 +100,18 @@ def _pool(workers):
 def run_batch(prop, tier, verif_seed, runs, workers, per_run_timeout, wall_cap, sample_idx):
     """returns (results sorted by index, harness_errors list, stopped_early bool)"""
     t0 = time.time()
-    nchunk = max(1, min(runs, max(workers * 12, -(-runs // 64))))  # chunks of <= 64 runs: short multi-run histories, short tails
+    # A few LONG chunks (one process lives through hundreds of runs: state that numqi accumulates per process - hand-rolled
+    # caches, counters - gets a chance to overflow or wrap) and many short ones (<= 64 runs: short multi-run histories, short tails).
+    n_long, long_size = (0, 0)
+    if runs >= 4000:
+        n_long, long_size = (4, 500) if tier == 'quick' else (8, 2500)
+    head = n_long * long_size
+    chunks = [list(range(c, head, n_long)) for c in range(n_long)]
+    rest = runs - head
+    nchunk = max(1, min(rest, max(workers * 12, -(-rest // 64))))
     # interleave indices so every chunk sees every stratum and chunks finish at similar times
-    chunks = [list(range(c, runs, nchunk)) for c in range(nchunk)]
+    chunks += [list(range(head + c, runs, nchunk)) for c in range(nchunk)]
+    chunks = [ch for ch in chunks if ch]
     results, herr, early = [], [], False
     ex = _pool(workers)
     try:
@@ -232,6 +241,7 @@ def main(argv=None):
         groups.setdefault(sig_key(r['violation']), []).append(r)
     exit_code = 0
     reported = []
+    shrink_deadline = time.time() + (240 if tier == 'quick' else 900)  # minimisation is best effort: never let it dominate the check
     os.makedirs(os.path.join(VERIF, 'replays'), exist_ok=True)
     for key, rs in sorted(groups.items()):
         r0 = rs[0]
@@ -277,14 +287,14 @@ def main(argv=None):
             log(f'note: violation {key} of run {idx} needs state left behind by earlier runs of the same process; minimising the multi-run history ({len(prelude)} earlier runs)')
             if not a.no_shrink:
                 holder = {'ops': prelude}
-                small, t = sshrink.ddmin_ops(holder, lambda h: fails_seq(list(h['ops']) + [plan]), max_tests=60)
+                small, t = sshrink.ddmin_ops(holder, lambda h: fails_seq(list(h['ops']) + [plan]), max_tests=60 if len(prelude) <= 64 else 24, deadline=shrink_deadline)
                 prelude = list(small['ops']) if fails_seq(list(small['ops']) + [plan]) else prelude
                 tests += t
         if not a.no_shrink and len(reported) < MAX_SHRUNK_GROUPS:
-            plan, t = sshrink.shrink(plan, lambda p: fails_seq(prelude + [p]), getattr(engine, 'simplify', None), max_tests=b.get('shrink_tests', 400))
+            plan, t = sshrink.shrink(plan, lambda p: fails_seq(prelude + [p]), getattr(engine, 'simplify', None), max_tests=b.get('shrink_tests', 400) if len(prelude) <= 64 else 12, deadline=shrink_deadline)
             tests += t
             if len(prelude) == 1:
-                pl, t = sshrink.shrink(prelude[0], lambda p: fails_seq([p, plan]), getattr(engine, 'simplify', None), max_tests=100)
+                pl, t = sshrink.shrink(prelude[0], lambda p: fails_seq([p, plan]), getattr(engine, 'simplify', None), max_tests=100, deadline=shrink_deadline)
                 prelude = [pl]
                 tests += t
         rr = last(prelude + [plan])
